@@ -1,20 +1,23 @@
 #!/bin/bash
 # confirm_seed.sh <ID>: in scratch worktree /tmp/seed-<ID>, confirm that the seeded change
 # (patch.diff) compiles, keeps the existing suite at 70 passed, and that the demo fails with it and
-# passes without it. Writes /tmp/seed-<ID>/confirm.json.
+# passes without it. Never uses `git stash` (the stash is shared between worktrees).
 ID=$1; W=/tmp/seed-$ID; L=$(echo $ID | tr A-Z a-z)
 cd $W || exit 2
 export CARGO_NET_OFFLINE=true
 [ -f Cargo.lock ] || cp /repo/Cargo.lock .
+git checkout -q -- src && git apply patch.diff || { echo "$ID patch does not apply"; exit 3; }
+FEAT=""
+grep -q 'verif-hooks' tests/demo_$L.rs && FEAT="--features verif-hooks"
 suite=$(cargo test --offline --lib 2>&1 | grep -E "^test result" | head -1)
-demo_with=$(cargo test --offline --test demo_$L 2>&1 | grep -E "^test result" | tail -1)
-git stash push -q -- src
-demo_without=$(cargo test --offline --test demo_$L 2>&1 | grep -E "^test result" | tail -1)
-git stash pop -q
-python3 - "$ID" "$suite" "$demo_with" "$demo_without" <<'PY'
+demo_with=$(cargo test --offline $FEAT --test demo_$L 2>&1 | grep -E "^test result" | tail -1)
+git checkout -q -- src
+demo_without=$(cargo test --offline $FEAT --test demo_$L 2>&1 | grep -E "^test result" | tail -1)
+git apply patch.diff
+python3 - "$ID" "$suite" "$demo_with" "$demo_without" "$FEAT" <<'PY'
 import json,sys
-id,suite,dw,dwo=sys.argv[1:5]
+id,suite,dw,dwo,feat=sys.argv[1:6]
 ok = ("70 passed" in suite) and ("FAILED" in dw) and ("ok." in dwo and "0 failed" in dwo)
-json.dump({"id":id,"suite_with_change":suite,"demo_with_change":dw,"demo_without_change":dwo,"confirmed":ok}, open(f"/tmp/seed-{id}/confirm.json","w"), indent=1)
+json.dump({"id":id,"suite_with_change":suite,"demo_with_change":dw,"demo_without_change":dwo,"demo_features":feat,"confirmed":ok}, open(f"/tmp/seed-{id}/confirm.json","w"), indent=1)
 print(id, "CONFIRMED" if ok else "NOT-CONFIRMED", "|", suite, "|", dw, "|", dwo)
 PY
